@@ -1,4 +1,4 @@
 (* Extraction of the executable oracles and models.  ExtrOcamlBasic only; nat, N, Z, positive, string stay extracted datatypes. *)
 From Coq Require Import extraction.Extraction extraction.ExtrOcamlBasic.
-Require Import GenPrelude FromSource FromTransformers FromApp Loop Ctx Print Oracle.
-Extraction "model.ml" tsm_enum cls_enum tf_values df_values tht_values imain_run default_imin_gen default_imax_gen default_istop_gen decide tel_ctx_reject_gen del_ctx_reject_gen lookahead_part_gen print_model parse_imin_gen parse_imax_gen istop_values_gen.
+Require Import GenPrelude FromSource FromTransformers FromApp FromTables DocTables Loop Ctx Print Parser ParserTable Oracle.
+Extraction "model.ml" tsm_enum cls_enum tf_values df_values tht_values imain_run default_imin_gen default_imax_gen default_istop_gen decide tel_ctx_reject_gen del_ctx_reject_gen lookahead_part_gen print_model parse_imin_gen parse_imax_gen istop_values_gen parse_tbl known tel_body_table_gen tel_head_table_gen del_table_gen py_head_table_gen documented_tel documented_head documented_del.
